@@ -77,6 +77,50 @@ def build(t):
     return {"+": operator.add, "-": operator.sub, "*": operator.mul, "//": operator.floordiv, "/": operator.truediv, "%": operator.mod}[k](a, b)
 
 
+def sympy_direct(t):
+    """The same tree built with SymPy alone (no onnx_ir code): used only to attribute a wrong value to SymPy itself."""
+    import sympy
+    k = t[0]
+    if k == "sym":
+        return sympy.Symbol(t[1], integer=True, positive=True)
+    if k == "int":
+        return sympy.Integer(t[1])
+    if k in UN:
+        x = sympy_direct(t[1])
+        return {"neg": lambda: -x, "floor": lambda: sympy.floor(x), "ceil": lambda: sympy.ceiling(x),
+                "trunc": lambda: sympy.sign(x) * sympy.floor(sympy.Abs(x))}[k]()
+    a, b = sympy_direct(t[1]), sympy_direct(t[2])
+    return {"+": lambda: a + b, "-": lambda: a - b, "*": lambda: a * b, "//": lambda: sympy.floor(a / b), "/": lambda: a / b,
+            "%": lambda: sympy.Mod(a, b)}[k]()
+
+
+def sympy_value(e, envs):
+    """Exact value SymPy alone gives to expression e when the bindings are applied one after another."""
+    import sympy
+    for env in envs:
+        e = e.xreplace({sy: sympy.Integer(env[str(sy)]) for sy in e.free_symbols if str(sy) in env})
+    if not e.is_number:
+        return None
+    r = e if e.is_Rational else sympy.simplify(e)
+    return Fraction(int(r.p), int(r.q)) if r.is_Rational else None
+
+
+SYMPY_DEFECTS = []
+
+
+def blame_sympy(label, got, mk_expr, envs):
+    """True when SymPy alone, given the directly constructed expression, produces the same wrong value: the deviation
+    from exact arithmetic is then SymPy's (a dependency defect, listed as a known finding), not onnx_ir's."""
+    try:
+        v = sympy_value(mk_expr(), envs)
+    except Exception:  # noqa: BLE001
+        return False
+    if v is not None and v == got:
+        SYMPY_DEFECTS.append(label)
+        return True
+    return False
+
+
 def has_sym(t):
     return t[0] == "sym" or any(has_sym(x) for x in t[1:] if isinstance(x, tuple))
 
@@ -121,6 +165,8 @@ def check_dim(d, t, binds, failures, label, stats):
             continue
         got = d.evaluate(env) if not isinstance(d, int) else d
         g = to_fraction(got)
+        if g != want and g is not None and blame_sympy(f"{show(t)} at {env}: SymPy alone gives {g}, exact value {want}", g, lambda: sympy_direct(t), [env]):
+            return
         if g != want:
             failures.append(f"{label}: {show(t)} at {env}: evaluate -> {getattr(got, 'value', got)!r}, exact value {want}")
             return
@@ -200,6 +246,9 @@ def part_a(tier, seed, failures, stats, focus=None):
                 failures.append(f"partial binding: {show(t)} at {env} raised {type(e).__name__}: {e}")
                 break
             if to_fraction(got) != want:
+                if to_fraction(got) is not None and blame_sympy(f"{show(t)} N={env['N']} then M={env['M']}: SymPy alone gives {to_fraction(got)}, exact value {want}",
+                                                               to_fraction(got), lambda: sympy_direct(t), [{"N": env["N"]}, {"M": env["M"]}]):
+                    break
                 failures.append(f"partial binding: {show(t)} N={env['N']} then M={env['M']} -> {getattr(got, 'value', got)!r}, exact value {want}")
                 break
         # simplification preserves every evaluation
@@ -223,7 +272,10 @@ def part_a(tier, seed, failures, stats, focus=None):
         try:
             want = ref_eval(t, env)
             sh = ir.Shape([d, 4]).evaluate(env)
-            if to_fraction(sh[0]) != want or sh[1] != 4:
+            if to_fraction(sh[0]) != want and to_fraction(sh[0]) is not None and blame_sympy(
+                    f"{show(t)} at {env}: SymPy alone gives {to_fraction(sh[0])}, exact value {want}", to_fraction(sh[0]), lambda: sympy_direct(t), [env]):
+                pass
+            elif to_fraction(sh[0]) != want or sh[1] != 4:
                 failures.append(f"Shape.evaluate: {show(t)} at {env} -> {sh}, exact value {want}")
         except Undefined:
             pass
@@ -303,6 +355,31 @@ def py_meaning(s, env):
     return Fraction(v)
 
 
+def sympy_of_string(s):
+    """The string's standard reading (Python's AST) built with SymPy alone."""
+    import ast
+    import sympy
+
+    def go(n):
+        if isinstance(n, ast.Expression):
+            return go(n.body)
+        if isinstance(n, ast.Constant):
+            return sympy.Integer(n.value)
+        if isinstance(n, ast.Name):
+            return sympy.Symbol(n.id, integer=True, positive=True)
+        if isinstance(n, ast.UnaryOp) and isinstance(n.op, ast.USub):
+            return -go(n.operand)
+        if isinstance(n, ast.BinOp):
+            a, b = go(n.left), go(n.right)
+            return {ast.Add: lambda: a + b, ast.Sub: lambda: a - b, ast.Mult: lambda: a * b, ast.Div: lambda: a / b,
+                    ast.FloorDiv: lambda: sympy.floor(a / b), ast.Mod: lambda: sympy.Mod(a, b), ast.Pow: lambda: a ** b}[type(n.op)]()
+        if isinstance(n, ast.Call):
+            f = {"max": sympy.Max, "Max": sympy.Max, "min": sympy.Min, "Min": sympy.Min, "floor": sympy.floor, "mod": sympy.Mod, "Mod": sympy.Mod}[n.func.id]
+            return f(*[go(a) for a in n.args])
+        raise ValueError(ast.dump(n))
+    return go(ast.parse(s.strip(), mode="eval"))
+
+
 def part_b(tier, seed, failures, stats, focus=None):
     rnd = random.Random(seed + 1)
     strings = FIXED + gen_strings(rnd, 400 if tier != "thorough" else 2500)
@@ -339,6 +416,9 @@ def part_b(tier, seed, failures, stats, focus=None):
                 failures.append(f"grammar: {s!r} at {env}: evaluate raised {type(e).__name__}: {e}")
                 break
             if to_fraction(got) != want:
+                if to_fraction(got) is not None and blame_sympy(f"{s!r} at {env}: SymPy alone gives {to_fraction(got)}, standard meaning {want}",
+                                                               to_fraction(got), lambda: sympy_of_string(s), [env]):
+                    break
                 failures.append(f"grammar: {s!r} at {env} -> {getattr(got, 'value', got)!r}, standard meaning {want}")
                 break
 
@@ -391,6 +471,12 @@ def main():
             if k.get("property") == "C16" and k.get("key"):
                 known[k["key"]] = k
     new, known_lines = [], []
+    sympy_kf = known.get("sympy-alone")
+    if SYMPY_DEFECTS:
+        if sympy_kf is not None:
+            known_lines.append(f"{sympy_kf['what']} [{len(SYMPY_DEFECTS)} input(s) in this run, e.g. {SYMPY_DEFECTS[0]}]")
+        else:
+            failures.extend("SymPy alone deviates from exact arithmetic: " + x for x in SYMPY_DEFECTS)
     for f in failures:
         hit = next((k for key, k in known.items() if key in f), None)
         if hit:
